@@ -141,11 +141,17 @@ def hyp_run(strategy, fn, n, seed):
 # the variant in its case ("_env"), so shrinking is skipped and every replay runs in the same variant.
 
 ENV_VARIANTS = [
+    # quick tier: the first four (combinations keep the number of child interpreters down)
+    {"name": "O+TZ-Kolkata", "flags": ["-O"], "vars": {"TZ": "Asia/Kolkata"}},
+    {"name": "busy-thread+TZ-New_York+hashseed-7", "busy_thread": True, "vars": {"TZ": "America/New_York", "PYTHONHASHSEED": "7"}},
+    {"name": "ast-from-another-process", "vars": {"VERIF_AST_PROVENANCE": "foreign-pickle"}},
+    {"name": "ast-hand-built-shared-nodes+decimal-prec-6", "vars": {"VERIF_AST_PROVENANCE": "hashcons"},
+     "startup": "import decimal; decimal.getcontext().prec = 6; decimal.DefaultContext.prec = 6"},
+    # thorough tier: also each dimension on its own
     {"name": "O", "flags": ["-O"]},
-    {"name": "TZ-Kolkata", "vars": {"TZ": "Asia/Kolkata"}},
-    {"name": "TZ-New_York-hashseed-7", "vars": {"TZ": "America/New_York", "PYTHONHASHSEED": "7"}},
+    {"name": "TZ-Chatham+hashseed-12345", "vars": {"TZ": "Pacific/Chatham", "PYTHONHASHSEED": "12345"}},
     {"name": "busy-thread", "busy_thread": True},
-    {"name": "O-hashseed-12345-TZ-Chatham", "flags": ["-O"], "vars": {"TZ": "Pacific/Chatham", "PYTHONHASHSEED": "12345"}},
+    {"name": "ast-hand-built-shared-nodes", "vars": {"VERIF_AST_PROVENANCE": "hashcons"}},
 ]
 _MARK = "@@VP-CHILD-RESULT@@"
 
@@ -156,6 +162,7 @@ def run_in_env(env, payload, timeout=3600):
     e = dict(os.environ)
     e.update(env.get("vars", {}))
     e["VERIF_CHILD_BUSY_THREAD"] = "1" if env.get("busy_thread") else ""
+    e["VERIF_CHILD_STARTUP"] = env.get("startup", "")
     p = subprocess.run(cmd, input=json.dumps(payload, default=str), env=e, cwd=VERIF, text=True,
                        stdout=subprocess.PIPE, stderr=subprocess.PIPE, timeout=timeout)
     for line in p.stdout.splitlines():
@@ -171,26 +178,55 @@ def _busy_thread():
     from odata_query.roundtrip import AstToODataVisitor
     from odata_query.sql import AstToSqliteSqlVisitor
     from odata_query.rewrite import AliasRewriter
-    texts = ["zz1 eq 1 and contains(zz2, 'q') or zz3 in (1, 2, 3)", "not (zz4/zz5 gt 2.5)", "zz6/any(t: t/zz7 eq 'x')",
+    texts = ["zz1 eq 1 and contains(zz2, 'q') or zz3 in (1, 2, 3)", "zz6/any(t: t/zz7 eq 'x' and t/zz1/any(x: x eq t/zz2))",
+             "zz1 mul zz2 add zz3 sub zz1 div 2 eq 1 or not zz2 eq 'a' and zz3 lt 1", "not (zz4/zz5 gt 2.5)", "zz6/any(t: t/zz7 eq 'x')",
              "tolower(zz8) eq 'y' and zz9 add 1 mul 2 lt 7", "zz10 eq 2020-01-01T00:00:00Z", "(zz11 eq", "zz12 eq 'unterminated",
              "length(zz13) eq 3 or startswith(zz14, 'a%_')", "zz15 eq duration'P1D' or zz16 eq null"]
     sys.setswitchinterval(1e-5)
 
-    def loop():
+    # every import happens here, on the main thread, before the second thread exists: two threads
+    # importing one package at the same time is a hazard of the interpreter, not of the library
+    from odata_query import ast
+    from odata_query.utils import expression_relative_to_identifier
+    core = None
+    try:
+        import sqlalchemy as sa
+        import sqlalchemy.orm  # noqa: F401
+        from odata_query.sqlalchemy import apply_odata_core
+        tbl = sa.Table("zzbusy", sa.MetaData(), sa.Column("zz1", sa.Integer), sa.Column("zz2", sa.String),
+                       sa.Column("zz3", sa.Integer))
+        str(apply_odata_core(sa.select(tbl), "zz1 eq 1"))
+        core = (sa, apply_odata_core, tbl)
+    except Exception:
+        pass
+    try:
+        import django  # noqa: F401
+        import odata_query.django  # noqa: F401
+    except Exception:
+        pass
+
+    def loop(rounds=None):
         lexer, parser = ODataLexer(), ODataParser()
-        rw = AliasRewriter({"zz1": "yy/zz1"})
         i = 0
-        while True:
+        while rounds is None or i < rounds:
             t = texts[i % len(texts)]
             i += 1
             try:
+                # its own instances throughout; new ones every few rounds, as a request handler would
+                if i % 5 == 0:
+                    lexer, parser = ODataLexer(), ODataParser()
                 a = parser.parse(lexer.tokenize(t))
                 AstToODataVisitor().visit(a)
-                rw.visit(a)
+                AliasRewriter({"zz1": "yy/zz1", "t": "zz1", "x": "zz2"}).visit(a)
                 AstToSqliteSqlVisitor().visit(a)
+                expression_relative_to_identifier(ast.Identifier("t"), a)
+                if core and i % 3 == 0:
+                    sa, apply_odata_core, tbl = core
+                    str(apply_odata_core(sa.select(tbl), "zz1 eq %d and contains(zz2, 'q%d') or zz3 in (1, 2)" % (i, i)))
             except Exception:
                 pass
 
+    loop(3 * len(texts))      # once through on the main thread first (lazy imports inside the library)
     threading.Thread(target=loop, daemon=True).start()
 
 
@@ -198,6 +234,8 @@ def child_main():
     payload = json.load(sys.stdin)
     ensure_deps()
     use_repo()
+    if os.environ.get("VERIF_CHILD_STARTUP"):
+        exec(os.environ["VERIF_CHILD_STARTUP"], {})
     if os.environ.get("VERIF_CHILD_BUSY_THREAD"):
         _busy_thread()
     mod = importlib.import_module(payload["mod"])
